@@ -621,6 +621,15 @@ def main():
     remove_stale_dirs()
     if replay_path:
         return replay(replay_path, ncpu)
+    if os.environ.get("VERIF_FEAT_PREPARE_ONLY") == "1":
+        # used by setup.sh: compile the third-party dependency seed once so that the check itself
+        # does not have to
+        prep = os.path.join(RUN_BASE, "prepare-%d" % PID)
+        os.makedirs(prep, exist_ok=True)
+        for d in prepare_seed(prep, ncpu, 0, lambda m: sys.stderr.write("[C35 setup] %s\n" % m)):
+            pass
+        shutil.rmtree(prep, ignore_errors=True)
+        return 0
 
     t_start = time.time()
     tree_before = tree_fingerprint()
